@@ -1,8 +1,8 @@
 (* MicroStep.v — lock-granularity model of concurrent submitters (C05).
    With the send-order mutex a submission is three separately locked steps
      [allocate the sequence number] [ask the node table for admission] [append to the packet buffer]
-   executed by one thread at a time, while the receiver thread and the heartbeat thread's expiry pass
-   (which do not take that mutex) may run a whole uplink step / a whole pass between any two of them. A schedule is any sequence of such micro steps. *)
+   executed by one thread at a time, while the receiver thread (which does not take that mutex) may run
+   a whole uplink step between any two of them. A schedule is any sequence of such micro steps. *)
 From Coq Require Import List NArith Bool Arith.
 From LB Require Import Tables Framing NodeFlow.
 Import ListNotations.
@@ -18,8 +18,7 @@ Inductive mstep :=
 | MAdmit
 | MBuffer
 | MUp (a : list N) (rty last : N)                 (* receiver thread: one uplink message *)
-| MTime (n : N)
-| MExpire.                                        (* heartbeat thread: one expiry pass over the node table *)
+| MTime (n : N).
 
 Record mstate := { ms_tab : table; ms_pend : pend; ms_now : N }.
 Definition ms_init : mstate := {| ms_tab := []; ms_pend := PNone; ms_now := 0 |}.
@@ -45,9 +44,6 @@ Definition micro (s : mstate) (st : mstep) : option (mstate * list (list N * lis
       let '(t1, gs) := uplink_tab (ms_tab s) a rty last (ms_now s) in
       Some ({| ms_tab := t1; ms_pend := p; ms_now := ms_now s |}, grp_msgs gs)
   | MTime n, p => Some ({| ms_tab := ms_tab s; ms_pend := p; ms_now := n |}, [])
-  | MExpire, p =>
-      let '(t1, gs) := on_expire (ms_tab s) (ms_now s) in
-      Some ({| ms_tab := t1; ms_pend := p; ms_now := ms_now s |}, grp_msgs gs)
   | _, _ => None
   end.
 
